@@ -116,6 +116,7 @@ type c19Req struct {
 	Fields  []c19Field `json:"fields"` // in submission order; duplicates allowed
 	RawJSON string     `json:"raw_json,omitempty"`
 	FaultAt int        `json:"fault_at,omitempty"` // fail this backend call of the request (0 = none)
+	InQuery []string   `json:"in_query,omitempty"` // form mode: these fields travel in the URL query string instead of the body (net/http merges both)
 }
 
 type c19Case struct {
@@ -177,11 +178,24 @@ func c19Run(c c19Case) (*Violation, map[string]bool) {
 				vals = seen
 			}
 		} else {
-			fm := url.Values{}
+			fm, qv := url.Values{}, url.Values{}
+			var inBody, inQuery []c19Field
 			for _, f := range rq.Fields {
-				fm.Add(f.K, f.V)
+				if contains(rq.InQuery, f.K) {
+					qv.Add(f.K, f.V)
+					inQuery = append(inQuery, f)
+				} else {
+					fm.Add(f.K, f.V)
+					inBody = append(inBody, f)
+				}
 			}
 			q.FormMulti = fm
+			if len(qv) > 0 {
+				q.Query = qv
+				flags["fields-in-query"] = true
+				// a form's body values come before the query's
+				vals = effective(append(inBody, inQuery...), false)
+			}
 		}
 		if rq.FaultAt > 0 {
 			q.Fault = harness.FaultPlan{At: rq.FaultAt, Kind: "generic"}
@@ -354,6 +368,10 @@ func c19Gen(t *rapid.T) c19Case {
 			}
 		}
 		rq := c19Req{Fields: fields}
+		if !c.Cfg.JSON && chance(t, "inquery", 15) {
+			// a hand-made link / a client that puts (some of) the fields into the URL
+			rq.InQuery = subset(t, "qf", []string{"email", "username", "password", "confirm_password"}, 60)
+		}
 		if chance(t, "regfault", 12) {
 			rq.FaultAt = pick(t, "regfaultat", 1, 2, 3, 3, 4, 4, 5, 6)
 		}
